@@ -27,21 +27,21 @@ func TestMain(m *testing.M) { fw.Main(m) }
 
 // LIMIT 0 [PERCENT] WITH TIES after ORDER BY on >= 2 rows: Fatal Error
 // (signature limit_zero_with_ties_fatal).
-const avoidKnownLimitZeroTies = true
+const avoidKnownLimitZeroTies = false
 
 // LIMIT p PERCENT with p > 100 and more than 100 remaining rows: keeps 100
 // rows (signature limit_percent_over_100).
-const avoidKnownPercentOver100 = true
+const avoidKnownPercentOver100 = false
 
 // LIMIT n WITH TIES OFFSET m (m > 0): the tie comparison uses the sort keys
 // of the pre-offset positions (signature with_ties_after_offset).
-const avoidKnownTiesAfterOffset = true
+const avoidKnownTiesAfterOffset = false
 
 // A number key column that holds an integer and a float of equal value
 // (2 and 2.0): the sort comparator is asymmetric for the pair and WITH TIES
 // does not treat them as tied (signatures sort_order_int_float_equal,
 // with_ties_int_float_equal).
-const avoidKnownIntFloatEqual = true
+const avoidKnownIntFloatEqual = false
 
 // A text key column holding boolean-like words ('t', 'false', ...): ORDER BY
 // leaves them unordered against other text.
